@@ -258,6 +258,19 @@ def slack_rules(ctx, name, convert):
                 d = st['dst']
                 if d['l'] in roots and d['p'] and fields_of_place(d)[:1] == [(DV, field)] or (d['l'] in roots and d['p'] and fields_of_place(d)[:1] and fields_of_place(d)[0][1] == field and fields_of_place(d)[0][0].endswith(DV)):
                     if st['rv'].get('ops'): ops = [st['rv']['ops'][0]]          # an assignment after the literal overrides it
+            # the field set through the generated setter (`dv.set_kind(Kind::Integer)`) or mutated in place (`dv.subscripts.push(x)`)
+            for c in body.calls:
+                if not c.args or c.args[0]['k'] not in ('copy', 'move'): continue
+                r0 = c.args[0]['pl']['l']
+                for _ in range(3):
+                    d0 = single_def(body, r0)
+                    if d0 and d0[0] == 'stmt' and d0[2]['rv']['k'] == 'use' and d0[2]['rv']['ops'][0]['k'] in ('copy', 'move') and not d0[2]['rv']['ops'][0]['pl']['p']: r0 = d0[2]['rv']['ops'][0]['pl']['l']
+                    else: break
+                d0 = single_def(body, r0)
+                if not (d0 and d0[0] == 'stmt' and d0[2]['rv']['k'] == 'ref' and d0[2]['rv'].get('mut') and d0[2]['rv']['pl']['l'] in roots): continue
+                fp = fields_of_place(d0[2]['rv']['pl'])
+                if not fp and c.item == 'set_' + field and len(c.args) == 2: ops = ops + [c.args[1]] if field == 'subscripts' else [c.args[1]]
+                elif fp and fp[0][1] == field and fp[0][0].endswith(DV) and T.MUT_CALL.search(c.name) and len(c.args) >= 2: ops = ops + list(c.args[1:])
             out.append(ops)
         return out
     def field_rule(rule, field, what, pred):
